@@ -54,8 +54,19 @@ def repo_tag():
     return "" if REPO == "/repo" else "-" + hashlib.sha1(REPO.encode()).hexdigest()[:8]
 
 
+# Set to a property id when the full harness no longer builds against the tree under
+# observation (a change of its public API broke some *other* monitor) and the harness was
+# rebuilt with that property's monitor alone.
+ONLY = {"prop": None}
+
+
+def only_args():
+    return ["--no-default-features", "--features", ONLY["prop"].lower()] if ONLY["prop"] else []
+
+
 def target_dir(variant):
-    return os.path.join(WORK, "target" + repo_tag(), variant)
+    suffix = ("-only-" + ONLY["prop"].lower()) if ONLY["prop"] else ""
+    return os.path.join(WORK, "target" + repo_tag(), variant + suffix)
 
 
 def harness_dir():
@@ -91,8 +102,8 @@ def build(variant):
         env.update(extra)
         env["CARGO_TARGET_DIR"] = target_dir(variant)
         t0 = time.time()
-        p = subprocess.run(["cargo", "+nightly"] + args, cwd=hdir, env=env, stdout=subprocess.PIPE, stderr=subprocess.STDOUT, text=True)
-        log(f"build {variant}: exit {p.returncode} in {time.time() - t0:.1f}s")
+        p = subprocess.run(["cargo", "+nightly"] + args + only_args(), cwd=hdir, env=env, stdout=subprocess.PIPE, stderr=subprocess.STDOUT, text=True)
+        log(f"build {variant}{' (only ' + ONLY['prop'] + ')' if ONLY['prop'] else ''}: exit {p.returncode} in {time.time() - t0:.1f}s")
         return p.returncode == 0, p.stdout
     finally:
         fcntl.flock(lock, fcntl.LOCK_UN)
@@ -183,7 +194,7 @@ def tail(path, n=30):
 
 
 def miri_cmd():
-    return ["cargo", "+nightly", "miri", "run", "--profile", "checked", "--bin", "jbv"]
+    return ["cargo", "+nightly", "miri", "run", "--profile", "checked", "--bin", "jbv"] + only_args()
 
 
 # ------------------------------------------------------------------------------ findings
@@ -247,6 +258,16 @@ def run_stage(prop, tier, seed, stage, nshards_default):
     res = {"name": name, "variant": variant, "violations": [], "inconclusive": [], "agg": None, "wall_s": 0.0, "notes": []}
     t0 = time.time()
     ok, text = build(variant if variant != "miri" else "miri")
+    if not ok and ONLY["prop"] is None and not (prop == "C03" and re.search(r"E0277", text)):
+        # the full harness does not build against this tree: try this property's monitor alone
+        ONLY["prop"] = prop
+        first = next((l for l in text.splitlines() if l.startswith("error")), "")
+        ok2, text2 = build(variant)
+        if ok2:
+            ok, text = ok2, text2
+            res["notes"].append(f"the full harness no longer builds against this tree ({first[:160]}); rebuilt with the {prop} monitor alone")
+        else:
+            ONLY["prop"] = None
     if not ok:
         # loss of Send/Sync is the one build failure that is a verdict (C03)
         if prop == "C03" and re.search(r"E0277.*\n?.*(cannot be (sent|shared) between threads|`Send`|`Sync`)", text):
@@ -355,7 +376,7 @@ def classify_death(solo, stderr_tail, variant):
 def run_canary(variant, mode, wrapper=None):
     env = base_env()
     if variant == "miri":
-        cmd = ["cargo", "+nightly", "miri", "run", "--profile", "checked", "--bin", "canary", "--", mode]
+        cmd = ["cargo", "+nightly", "miri", "run", "--profile", "checked", "--bin", "canary"] + only_args() + ["--", mode]
         env["MIRIFLAGS"] = "-Zmiri-disable-isolation"
         env["CARGO_TARGET_DIR"] = target_dir("miri")
         cwd = harness_dir()
@@ -395,6 +416,10 @@ def do_replay(path):
     prop = body["property"]
     variant = body.get("variant", "checked")
     ok, text = build(variant)
+    if not ok:
+        # as in run_stage: this property's monitor alone
+        ONLY["prop"] = prop
+        ok, text = build(variant)
     if not ok:
         print(f"INCONCLUSIVE property={prop} reason=build")
         print(text[-2000:])
